@@ -581,7 +581,8 @@ def r7(ctx):
     C18.r2(sub)
     n = 0
     for o in sub.obligations:
-        if "entry_put[" not in o["key"] or "below-head" in o["key"]:
+        from .engine import failed_closed
+        if ("entry_put[" not in o["key"] or "below-head" in o["key"]) and not failed_closed(o):
             continue
         o = dict(o)
         o["key"] = o["key"].replace("C18.R2", "C05.R7")
